@@ -50,6 +50,18 @@ def runWith {σ : Type} (step : σ → Op → σ × Ret) (reqs : σ → Replicat
     let rest := runWith step reqs r.1 ops
     (rest.1, j :: rest.2)
 
+/-- a timed S3 history (`skew` given): every op carries `client` / `server` = the two clocks, whole seconds since the epoch.
+The number of list requests is reported only for listings that were served. -/
+def runTimed (skew ps : Nat) : S3 → List Timed → S3 × List Json
+  | s, [] => (s, [])
+  | s, t :: ts =>
+    let r := S3.stepT skew ps s t
+    let j := match t.op, r.2 with
+      | .list pfx, .names _ => (retJson r.2).setObjVal! "requests" (jnat (S3.listRequests ps s pfx))
+      | _, _ => retJson r.2
+    let rest := runTimed skew ps r.1 ts
+    (rest.1, j :: rest.2)
+
 def elemsOf (j : Json) : Except String (List Elem) := do
   (← j.getArr?).toList.mapM (fun e => do
     let a ← e.getArr?
@@ -73,6 +85,14 @@ def handleStore (op : String) (j : Json) : Except String Json := do
       pure (Json.mkObj [("rets", Json.arr rs.toArray), ("state", mapJson (s.map (fun (n, d) => (String.ofList n, d))))])
     | "s3" =>
       let ps ← getNat j "ps"
+      match j.getObjVal? "skew" with
+      | .ok sk =>
+        let skew ← sk.getNat?
+        let ts ← (← getArr j "ops").toList.mapM (fun o => do
+          pure ({ client := (← getNat o "client"), server := (← getNat o "server"), op := (← parseOp o) } : Timed))
+        let (s, rs) := runTimed skew ps ([] : S3) ts
+        pure (Json.mkObj [("rets", Json.arr rs.toArray), ("state", mapJson (s.map (fun (n, d) => (String.ofList n, d))))])
+      | .error _ =>
       let (s, rs) := runWith (S3.step ps) (S3.listRequests ps) ([] : S3) ops
       pure (Json.mkObj [("rets", Json.arr rs.toArray), ("state", mapJson (s.map (fun (n, d) => (String.ofList n, d))))])
     | "b2" =>
